@@ -555,8 +555,8 @@ def check(ctx):
 
 
 def _group_ops(ctx, prog):
-    from ..affine import Aff, AffError, atom, f_add, mul, p_const, show, \
-        subst, inverse
+    from ..affine import Aff, AffError, AffShapeError, atom, f_add, mul, \
+        p_const, show, subst, inverse
     from ..known_functions import KNOWN_FUNCTIONS
     from ..lib import strip_asarray
     looked = ("se3", "sim3", "so3_from_se3", "se3_inverse", "sim3_inverse")
@@ -721,6 +721,8 @@ def _group_ops(ctx, prog):
                             bad = (f"entry ({i}, {j}) is {show(got)[:120]}, "
                                    f"the definition gives {show(exp)[:120]}"
                                    + (f" (when {case})" if case else ""))
+            except AffShapeError as ex:
+                bad = f"the construction cannot run: {ex}"
             except AffError as ex:
                 unknown = str(ex)
         if unknown is not None and bad is None:
